@@ -1,5 +1,6 @@
 import DimodModel.Cqm
 import DimodModel.Feasibility
+import DimodModel.FeasOptions
 import DimodModel.Wire
 open Wire
 
@@ -161,7 +162,11 @@ def showFeas (m : Cqm) (atol rtol : Rat) (rowsL : List (List Rat)) : String :=
     let data := (Feas.iterConstraintData cs r).map fun d =>
       s!"{showRat d.lhsEnergy}:{showRat d.rhsEnergy}:{showSense d.sense}:{showRat d.activity}:{showRat d.violation}"
     let vl (l : List (Label × Rat)) := String.intercalate "," (l.map fun p => s!"{showLabel p.1}={showRat p.2}")
-    s!"{String.intercalate "," data}|{vl (Feas.iterViolations false false cs r)}|{vl (Feas.iterViolations true false cs r)}|{vl (Feas.iterViolations false true cs r)}|{bit (Feas.checkFeasible atol rtol cs r)}"
+    -- every option combination (skip_satisfied, clip) of `iter_violations`, then of `violations` (the dict)
+    let combos := [(false, false), (true, false), (false, true), (true, true)]
+    let its := String.intercalate "|" (combos.map fun (sk, cl) => vl (Feas.iterViolations sk cl cs r))
+    let dicts := String.intercalate "/" (combos.map fun (sk, cl) => vl (Feas.violationsDict sk cl cs r))
+    s!"{String.intercalate "," data}|{its}|{dicts}|{bit (Feas.checkFeasible atol rtol cs r)}"
   let vec (g : Bool) :=
     let res := Feas.fromSamplesCqm n atol rtol (fun _ _ => g) obj cs
     let sat := (List.range n).map fun r => String.join (res.isSatisfied.map fun col => bit (col r))
@@ -170,7 +175,7 @@ def showFeas (m : Cqm) (atol rtol : Rat) (rowsL : List (List Rat)) : String :=
     s!"{String.intercalate "," sat}|{fe}|{en}"
   s!"P {String.intercalate " ; " perRow} V {vec false} W {vec true}"
 
-/-- `feasl <labels|none|-> <row>`: `iter_constraint_data` and the three modes of `iter_violations` with `labels=` -/
+/-- `feasl <labels|none|-> <row>`: `iter_constraint_data` and the four option combinations of `iter_violations` with `labels=` -/
 def showFeasL (m : Cqm) (labels : Option (List Label)) (row : List Rat) : String :=
   let rows : Nat → Nat → Rat := fun _ g => row.getD g 0
   let cs := Feas.evalCons m rows
@@ -179,7 +184,7 @@ def showFeasL (m : Cqm) (labels : Option (List Label)) (row : List Rat) : String
   let d := Feas.iterConstraintDataL labels cs 0
   let data := if d.2 then "raise:value" else String.intercalate "," (d.1.map fun d =>
       s!"{showLabel d.label}:{showRat d.lhsEnergy}:{showRat d.rhsEnergy}:{showSense d.sense}:{showRat d.activity}:{showRat d.violation}")
-  s!"L {data}|{sh (Feas.iterViolationsL false false labels cs 0)}|{sh (Feas.iterViolationsL true false labels cs 0)}|{sh (Feas.iterViolationsL false true labels cs 0)}"
+  s!"L {data}|{sh (Feas.iterViolationsL false false labels cs 0)}|{sh (Feas.iterViolationsL true false labels cs 0)}|{sh (Feas.iterViolationsL false true labels cs 0)}|{sh (Feas.iterViolationsL true true labels cs 0)}"
 
 def stepAll (m : Cqm) (line : String) : Cqm × String :=
   match line.trimAscii.toString.splitOn " " with
